@@ -134,6 +134,9 @@ type Run struct {
 	rule      string
 	findings  map[string]Finding
 	replaying bool
+
+	wdMu   sync.Mutex
+	wdLive map[*W]bool
 }
 
 // W is a worker-local recorder. Not safe for concurrent use.
@@ -142,6 +145,10 @@ type W struct {
 	Rng   *Rand
 	Class string
 	Index int
+
+	// watchdog view of the case in flight (index, start time in unix nanos)
+	wdIndex atomic.Int64
+	wdSince atomic.Int64
 
 	evals     map[string]int64
 	classes   map[string]int64
@@ -162,7 +169,8 @@ func NewRun(prop, tier string, seed uint64, dir string) *Run {
 		evals: map[string]int64{}, classes: map[string]int64{}, gates: map[string]bool{},
 		distinct: map[uint64]struct{}{}, violKinds: map[string]int64{},
 		known: map[string]*knownAgg{}, errs: map[string]*errRec{}, extra: map[string]any{},
-		findings: map[string]Finding{}}
+		findings: map[string]Finding{}, wdLive: map[*W]bool{}}
+	go r.watchdog()
 	if r.NW > 16 {
 		r.NW = 16
 	}
@@ -219,12 +227,43 @@ func (r *Run) Inconclusive(why string) {
 }
 
 func (r *Run) newW(class string) *W {
-	return &W{R: r, Class: class, evals: map[string]int64{}, classes: map[string]int64{},
+	w := &W{R: r, Class: class, evals: map[string]int64{}, classes: map[string]int64{},
 		violKinds: map[string]int64{}, known: map[string]*knownAgg{}, errs: map[string]*errRec{}}
+	r.wdMu.Lock()
+	r.wdLive[w] = true
+	r.wdMu.Unlock()
+	return w
+}
+
+// watchdog bounds the run when one case never returns (a loop in the library
+// that does not call back into the harness cannot be bounded in logical
+// steps). Its firing is INCONCLUSIVE, never a violation; the limit is far
+// above any legitimate case duration (VERIF_HANG_S overrides, default 1800 s).
+func (r *Run) watchdog() {
+	limit := 1800.0
+	if v, err := strconv.ParseFloat(os.Getenv("VERIF_HANG_S"), 64); err == nil && v > 0 {
+		limit = v
+	}
+	for {
+		time.Sleep(5 * time.Second)
+		now := time.Now().UnixNano()
+		r.wdMu.Lock()
+		for w := range r.wdLive {
+			since := w.wdSince.Load()
+			if since != 0 && float64(now-since)/1e9 > limit {
+				fmt.Printf("INCONCLUSIVE property=%s case %s[%d] (seed %d, tier %s) has been in flight for more than %.0f s: a call that neither returns nor calls back into the harness cannot be decided by a monitor\n",
+					r.Prop, w.Class, w.wdIndex.Load(), r.Seed, r.Tier, limit)
+				os.Exit(Inconclusive)
+			}
+		}
+		r.wdMu.Unlock()
+	}
 }
 
 func (w *W) begin(i int) {
 	w.Index = i
+	w.wdIndex.Store(int64(i))
+	w.wdSince.Store(time.Now().UnixNano())
 	w.nontriv = false
 	w.Rng = NewRand(w.R.Seed, HashStr(w.R.Prop), HashStr(w.Class), uint64(i))
 }
@@ -263,6 +302,7 @@ func (r *Run) ParallelN(class string, n, nw int, fn func(w *W, i int)) {
 		wg.Add(1)
 		go func() {
 			defer wg.Done()
+			defer w.wdSince.Store(0) // idle: nothing in flight
 			for {
 				lo := atomic.AddInt64(&next, chunk) - chunk
 				if lo >= int64(n) {
@@ -293,6 +333,7 @@ func (r *Run) Serial(class string, n int, fn func(w *W, i int)) {
 		w.begin(i)
 		w.guard(func() { fn(w, i) })
 	}
+	w.wdSince.Store(0)
 	r.merge(w)
 }
 
@@ -310,6 +351,9 @@ func (w *W) guard(fn func()) {
 }
 
 func (r *Run) merge(w *W) {
+	r.wdMu.Lock()
+	delete(r.wdLive, w)
+	r.wdMu.Unlock()
 	r.mu.Lock()
 	defer r.mu.Unlock()
 	for k, v := range w.evals {
